@@ -82,6 +82,12 @@ def cases(tier, seed):
     deep = [("T1", "kfold2"), ("K2", "kfold2")] + ([("S", "kfold2"), ("V", "kfold2"), ("CH", "kfold2"), ("T1", "kfold3")] if tier == "thorough" else [])
     for est, cv in deep:
         yield dict(kind="cvs", ds=1, est=est, w=True, cv=cv, scoring=0, mode="delayed", bound=1, lines="all")
+    if tier == "thorough":
+        # preemption bound 2 over every line of the library for two Trend / KNeighbors / Spline tasks; the subtrees below the schedules
+        # with one deviation are dealt out to 16 (Spline: 32) shares so that the workers divide the space between them
+        for est, m in (("T1", 16), ("K2", 16), ("S", 32)):
+            for r in range(m):
+                yield dict(kind="cvs", ds=1, est=est, w=True, cv="kfold2", scoring=0, mode="delayed", bound=2, lines="all", part=[r, m])
     for ds in (0, 1):
         for mode in ("plain", "spacing", "shape"):
             for sd in range(6):
@@ -448,7 +454,7 @@ def run(case, rec):
 
         nsched = 0
         first_bad = None
-        for choices, (vals, fitted), b in S.explore(run_sched, bound):
+        for choices, (vals, fitted), b in S.explore(run_sched, bound, limit=2000000, part=tuple(case["part"]) if case.get("part") else None):
             nsched += 1
             rec.trans()
             outcomes.add(tuple(round(v, 12) for v in vals))
